@@ -102,16 +102,11 @@ fn validate_use_of_arguments_for_client_type<TCompilationProfile: CompilationPro
                     SelectionType::Scalar(s) => s.name.item,
                     SelectionType::Object(o) => o.name.item,
                 },
-            )
-            .as_ref()
-            .expect(
-                "Expected parsing to have succeeded. \
-                This is indicative of a bug in Isograph.",
             ) {
-                Some(s) => s,
-                None => {
-                    // We could emit an error, but this is validated already as part of
-                    // validate_selection_sets.
+                Ok(Some(s)) => s,
+                Ok(None) | Err(_) => {
+                    // We could emit an error (the selectable is not defined, or is defined multiple
+                    // times), but this is validated already as part of validate_selection_sets.
                     //
                     // We could combine these validations, though, as arguments live in selection sets!
                     return;
